@@ -181,7 +181,10 @@ def _job(args):
             v = violations(chk)[0]
             res[pid] = f"reported:{v['rule']}"
         else:
-            res[pid] = "silent"
+            nd = [o for o in chk.obligations if o["status"] == "undecided"
+                  and str(o["detail"]).startswith("NOT DECIDED")]
+            res[pid] = ("downgraded:" + nd[0]["rule"] + ": " + nd[0]["detail"][:160]) if nd \
+                else "silent"
     return {k: v for k, v in m.items() if k != "src"}, res
 
 
